@@ -17,15 +17,15 @@ type Sem struct {
 
 	channelT, serverChT, clientChT, transportT, sessionT, envelopeT *types.Named
 	stateF, transportF, sessionIDF, localNodeF, remoteNodeF         *types.Var
-	stateGetters                                                   map[*ssa.Function]bool
-	stateSetters                                                   map[*ssa.Function]bool // functions that store channel.state (directly)
-	nilCache                                                       map[*ssa.Function][]Atom
-	nilBusy                                                        map[*ssa.Function]bool
-	trueCache                                                      map[string][]Atom
-	unresolved                                                     []string
-	anch                                                           *Anchors
-	relCache                                                       map[*ssa.Function][2]bool
-	mutCache                                                       map[*ssa.Function]bool
+	stateGetters                                                    map[*ssa.Function]bool
+	stateSetters                                                    map[*ssa.Function]bool // functions that store channel.state (directly)
+	nilCache                                                        map[*ssa.Function][]Atom
+	nilBusy                                                         map[*ssa.Function]bool
+	trueCache                                                       map[string][]Atom
+	unresolved                                                      []string
+	anch                                                            *Anchors
+	relCache                                                        map[*ssa.Function][2]bool
+	mutCache                                                        map[*ssa.Function]bool
 }
 
 // Atom is a guard fact. Param>=0 means Val must be substituted from the caller's argument.
